@@ -16,7 +16,9 @@ RULE = ("corpus + seeded pairwise-distinct point sets (3..14 points quick / 30 t
         "(b) undamped Spline / VectorSpline2D with forces at the data (model: exact solution of the implementation's own square system, which reproduces "
         "the data exactly), (c) KNeighbors(k=1) (model: nearest datum), (d) Linear, Cubic, Chain and Vector compositions (oracle: residual at the data "
         "against a tolerance proportional to the conditioning); non-trivial = accepted fit with >= 3 points; distinct = distinct protocol lines")
-ASSUMPTIONS = ["float tolerance proportional to the condition number of the system (measured with numpy); systems with cond > 1e9 are counted ambiguous",
+ASSUMPTIONS = ["float tolerance proportional to the condition number of the system (measured with numpy on the Jacobian and on its unit-variance-column form); "
+               "systems with cond > 1e9 are counted ambiguous, and so is a departure from the data when cond > 1e5 (scikit-learn's LinearRegression(tol=1e-6) "
+               "truncates singular values there)",
                "SciPy's Linear/CloughTocher interpolators interpolate their nodes (contract; tested only)"]
 TRUSTED = ["LAPACK / scikit-learn LinearRegression", "scipy.interpolate interpolators", "scipy cKDTree"]
 
@@ -93,6 +95,13 @@ def corpus():
         coef = [rng.randint(-16, 16) / 4.0 or 1.0 for _ in combos(deg)]                                   # every monomial present
         for e2 in (-7, 0, 17):
             cs.append(mk_trend(et, nt, deg, deg, coef, f"corpus-trend-{deg}-full-scale2^{e2}", 2.0 ** e2))
+    # finding F2 (known_findings.json): SciPy's simplex search misses a hull vertex when the offset is ~1e3 x the extent and rescale=False
+    f2e = [159.945, 159.96375, 160.0525, 159.9725, 159.96, 159.99875, 160.04625, 159.98875, 159.94625, 159.9525, 160.07375, 159.92875, 160.075, 160.04, 159.97875, 160.065, 160.04875]
+    f2n = [-160.04125, -160.05375, -159.9325, -159.93125, -159.97875, -159.9525, -160.03875, -159.97375, -160.03875, -160.04375, -159.99875, -159.93125, -160.0, -160.0475, -160.0675, -159.94, -159.98125]
+    f2d = [[2.5, 2.75, -12.5, -12.0, 8.25, -0.25, -14.25, 6.0, -3.75, -14.75, -9.75, -10.5, -5.5, -7.0, 4.25, -5.0, 7.75], [-12.5, 13.75, -3.75, -3.25, -14.25, -6.75, -7.75, 7.75, 13.75, 0.5, -3.5, -2.25, 15.5, 6.75, 11.75, 16.0, 6.25]]
+    cs.append(mk_exact("chain-trend-linear-knn", f2e, f2n, [len(f2e)], f2d, {}, "corpus-F2-offset-1e3-extent"))
+    cs.append(mk_exact("linear", f2e, f2n, [len(f2e)], f2d, {"rescale": False}, "corpus-F2-offset-1e3-extent-linear"))
+    cs.append(mk_exact("linear", f2e, f2n, [len(f2e)], f2d, {"rescale": True}, "corpus-offset-1e3-extent-linear-rescaled"))
     return cs
 
 
@@ -193,11 +202,21 @@ def _cond(case):
     coords = (np.array(es), np.array(ns))
     with warnings.catch_warnings():
         warnings.simplefilter("ignore")
+        J = None
         if which in ("spline", "chain-trend-spline", "vector-of", "chain-trend-trend-spline"):
-            return float(np.linalg.cond(vd.Spline(mindist=params.get("mindist", 0)).jacobian(coords, coords)))
+            J = vd.Spline(mindist=params.get("mindist", 0)).jacobian(coords, coords)
         if which == "vector":
-            return float(np.linalg.cond(vd.VectorSpline2D(poisson=params["poisson"], mindist=params["mindist"]).jacobian(coords, coords)))
+            J = vd.VectorSpline2D(poisson=params["poisson"], mindist=params["mindist"]).jacobian(coords, coords)
+        if J is not None:
+            sd = J.std(axis=0)      # least_squares solves the unit-variance-column system: its conditioning counts too
+            return float(max(np.linalg.cond(J), np.linalg.cond(J / np.where(sd == 0, 1.0, sd))))
     return 1.0
+
+
+# scikit-learn >= 1.7 LinearRegression(tol=1e-6) hands `tol` to scipy.linalg.lstsq as `cond`: singular values below 1e-6 of the largest are
+# dropped, so beyond a conditioning of about 1e5 the "exact" fit is a truncated one and departs from the data by far more than round-off.
+# The property's tolerance is "proportional to the conditioning of the system"; such systems are counted ambiguous (as in C02), never decided.
+SOLVER_CUTOFF_COND = 1e5
 
 
 def compare(case, io, mo):
@@ -234,6 +253,8 @@ def compare(case, io, mo):
             return "amb"
         sc = max(1.0, float(np.max(np.abs(pm))))
         if not (np.max(np.abs(pm - pi)) <= 1e-13 * cond * sc + 1e-9 * sc):
+            if cond > SOLVER_CUTOFF_COND:
+                return "amb"
             return f"diff:predictions at the data differ from the exact solution of the same system by {np.max(np.abs(pm - pi))} (cond {cond:.1e})"
         return "ok"
     if which == "knn":
@@ -276,6 +297,8 @@ def oracle(case, io):
         sc = max(1.0, float(np.max(np.abs(d))))
         err = float(np.max(np.abs(np.array(pred) - d)))
         if not np.all(np.isfinite(pred)) or err > (1e-13 * cond + 1e-9) * sc:      # (same constant as the comparison with the exact solution)
+            if np.all(np.isfinite(pred)) and cond > SOLVER_CUTOFF_COND:
+                return None
             return (f"{which} {params}: prediction at the data points differs from the fitted values by {err} "
                     f"(component {c}, condition number {cond:.1e}, data scale {sc})")
     return None
@@ -285,5 +308,37 @@ def nontrivial(case, io):
     return (not C.is_err(io)) and len(case["args"][1]) >= 3
 
 
+def _on_hull_boundary(es, ns, k):
+    """Exact: some line through point k has every point on one closed side."""
+    P = [(C.fq(x), C.fq(y)) for x, y in zip(es, ns)]
+    px, py = P[k]
+    for j, (qx, qy) in enumerate(P):
+        if j == k:
+            continue
+        o = [(qx - px) * (ry - py) - (qy - py) * (rx - px) for rx, ry in P]
+        if all(v >= 0 for v in o) or all(v <= 0 for v in o):
+            return True
+    return False
+
+
 def finding_key(case, io):
-    return None
+    """F2: an interpolator built on SciPy's Delaunay simplex search WITHOUT rescaling returns NaN at one of its own data points that lies on the
+    boundary of the data's convex hull, for coordinates whose offset is at least 100 x their extent; everything else about the answer is right."""
+    if case["fn"] != "exact" or C.is_err(io):
+        return None
+    which, es, ns, shape2d, data, params = case["args"]
+    if not ((which in ("linear", "cubic") and not params.get("rescale")) or which == "chain-trend-linear-knn"):
+        return None
+    extent = max(max(es) - min(es), max(ns) - min(ns))
+    if not (extent > 0 and max(abs(v) for v in es + ns) >= 100 * extent):
+        return None
+    pred = np.array(io[1]["pred"][0])
+    d = np.array(data[0])
+    bad = [int(k) for k in np.where(~np.isfinite(pred))[0]]
+    if not bad or not all(np.isnan(pred[k]) and _on_hull_boundary(es, ns, k) for k in bad):
+        return None
+    ok = np.isfinite(pred)
+    sc = max(1.0, float(np.max(np.abs(d))))
+    if np.any(ok) and float(np.max(np.abs(pred[ok] - d[ok]))) > 1e-9 * sc:
+        return None
+    return "F2-delaunay-misses-hull-vertex-at-large-offset"
